@@ -307,6 +307,24 @@ def _body_paths(check):
         n0_ = len(check.obs)
         check.guarded("LIM-AXIOM", "xnum." + ln_, lambda: c12.analyse(check, proj, ln_))
         check.obs[n0_:] = [o for o in check.obs[n0_:] if o.rule in ("LIM-ZERO", "LIM-DEFINED", "LIM-AXIOM")]
+    # the boundary functions are handed cons2prim(Q) and their result goes back through the fluxes: "a boundary holding the same
+    # state" needs cons2prim(prim2cons(W)) == W for EVERY admissible W (an absolute floor on the density in the conversion --
+    # max(rho, 1e-6) -- changes the velocity of a rarefied state: inlet / outlet / dirichlet conditions no longer reduce to the
+    # interior state) -- same obligations as C17 ROUNDTRIP
+    from . import c17
+    for key_ in c17.KEYS:
+        check.guarded("ROUNDTRIP", key_, lambda: c17.roundtrip(check, key_))
+    # "on any mesh": every mesh the constructors can build has ncell cells of POSITIVE width (a duplicated face -- a float-step
+    # np.arange that yields its excluded end point -- is a cell of zero width: the residual of a uniform state there is 0/0)
+    # -- same obligations as C20 MESH-COUNT / MESH-MONO, violations only
+    from . import c20
+    for c_ in [c_ for c_ in ("mesh1d", "unimesh", "refinedmesh", "morphedmesh", "nonunimesh") if proj.has_cls("mesh." + c_)]:
+        n0_ = len(check.obs)
+        check.guarded("MESH-COUNT", "mesh." + c_, lambda: c20.mesh_1d(check, proj, c_))
+        kept_ = [o for o in check.obs[n0_:] if o.status == "violation" and o.rule in ("MESH-COUNT", "MESH-MONO", "MESH-SPAN")]
+        check.obs[n0_:] = kept_
+        if not kept_:
+            check.ok("MESH-COUNT", "mesh." + c_, "ncell + 1 strictly increasing faces for every admissible argument (C20)", nontrivial=False)
     check.guarded("INTEG-FIX", "integration", lambda: integ_fix(check, proj))
     check.guarded("REST-DEFINED", "timestep", lambda: rest_defined(check, proj))
     # the finite-difference Jacobian at a state with an identically vanishing component
